@@ -2615,3 +2615,172 @@ func ruleZeroTime(c *Ctx, r *Rep) {
 		r.OK("census", token.NoPos, "no comparison of a time.Time with the zero time in package gojq")
 	}
 }
+
+// ---------------------------------------------------------------------------------------------------------------------
+
+func init() {
+	reg(&Rule{ID: "R-C04-foldresult", Props: []string{"C04", "C08"}, Floor: 1,
+		Doc: "a value the compiler computes at compile time by calling a function that can return an error value (the natives return errors as values) is tested for error before it is stored as an instruction operand: a stored error is pushed as data at run time, past try/catch, and no encoder accepts it",
+		Run: ruleFoldResult})
+}
+
+func ruleFoldResult(c *Ctx, r *Rep) {
+	p := c.Gojq
+	info := p.TypesInfo
+	errIface := types.Universe.Lookup("error").Type().Underlying().(*types.Interface)
+	memo := map[*ast.FuncDecl]int{} // 1 may return an error value, 2 does not
+	var mayErr func(fd *ast.FuncDecl, depth int) bool
+	mayErr = func(fd *ast.FuncDecl, depth int) bool {
+		if fd == nil || fd.Body == nil || depth > 3 {
+			return false
+		}
+		if v, ok := memo[fd]; ok {
+			return v == 1
+		}
+		memo[fd] = 2
+		res := false
+		// only functions whose single result is an interface (any): an error travelling as a value
+		if fd.Type.Results == nil || len(fd.Type.Results.List) != 1 {
+			return false
+		}
+		if _, isIface := info.TypeOf(fd.Type.Results.List[0].Type).Underlying().(*types.Interface); !isIface {
+			return false
+		}
+		if types.Implements(info.TypeOf(fd.Type.Results.List[0].Type), errIface) {
+			return false // a proper error result, handled by the usual plumbing
+		}
+		ast.Inspect(fd.Body, func(q ast.Node) bool {
+			if _, isLit := q.(*ast.FuncLit); isLit {
+				return true
+			}
+			rs, ok := q.(*ast.ReturnStmt)
+			if !ok || len(rs.Results) != 1 {
+				return true
+			}
+			e := unparen(rs.Results[0])
+			if t := info.TypeOf(e); t != nil {
+				if _, isIface := t.Underlying().(*types.Interface); !isIface && types.Implements(t, errIface) {
+					res = true
+				}
+			}
+			if call, ok := e.(*ast.CallExpr); ok {
+				if f, ok := callee(info, call).(*types.Func); ok && f.Pkg() != nil && f.Pkg().Path() == pathGojq && f.Type().(*types.Signature).Recv() == nil {
+					if mayErr(c.Decl(p, f.Name()), depth+1) {
+						res = true
+					}
+				}
+			}
+			return true
+		})
+		if res {
+			memo[fd] = 1
+		}
+		return res
+	}
+	n := 0
+	for _, fd := range c.Decls(p) {
+		if fd.Body == nil || recvTypeName(fd) != "compiler" {
+			continue
+		}
+		check := func(val ast.Expr, pos token.Pos, where string) {
+			call, ok := unparen(val).(*ast.CallExpr)
+			if !ok {
+				return
+			}
+			f, ok := callee(info, call).(*types.Func)
+			if !ok || f.Pkg() == nil || f.Pkg().Path() != pathGojq || f.Type().(*types.Signature).Recv() != nil {
+				return
+			}
+			if !mayErr(c.Decl(p, f.Name()), 0) {
+				return
+			}
+			n++
+			r.Bad("operand:"+declKey(fd)+":"+f.Name(), pos, "%s stores the result of %s(…) %s without testing it for error: %s returns errors as values (e.g. a type error for a non-number), so `try -\"a\" catch \"caught\"` would emit the error object as data instead of \"caught\", and encoding it panics", declKey(fd), f.Name(), where, f.Name())
+		}
+		ast.Inspect(fd.Body, func(q ast.Node) bool {
+			switch x := q.(type) {
+			case *ast.CompositeLit:
+				if !isNamed(info.TypeOf(x), pathGojq, "code") {
+					return true
+				}
+				for _, el := range x.Elts {
+					if kv, ok := el.(*ast.KeyValueExpr); ok {
+						if id, ok := kv.Key.(*ast.Ident); ok && id.Name == "v" {
+							check(kv.Value, kv.Pos(), "as the operand of a new instruction")
+						}
+					}
+				}
+			case *ast.AssignStmt:
+				for i, l := range x.Lhs {
+					if sel, ok := unparen(l).(*ast.SelectorExpr); ok && sel.Sel.Name == "v" && isNamed(derefType(info.TypeOf(sel.X)), pathGojq, "code") && i < len(x.Rhs) {
+						check(x.Rhs[i], x.Pos(), "into the operand of an existing instruction")
+					}
+				}
+			}
+			return true
+		})
+	}
+	if n == 0 {
+		r.OK("census", token.NoPos, "no instruction operand is the unchecked result of a function that returns errors as values")
+	}
+}
+
+// ---------------------------------------------------------------------------------------------------------------------
+
+func init() {
+	reg(&Rule{ID: "R-C01-internalname", Props: []string{"C01", "C03"}, Floor: 8,
+		Doc: "a function name the compiler synthesises for a construct that jq implements internally (the conversion applied to the pieces of an interpolated string, the @format encoders) lies in gojq's reserved `_` namespace, so that a user definition of the public name cannot capture it; names that jq itself binds by name (`recurse` for `..`, `debug` inside debug/1) are the enumerated exceptions",
+		Run: ruleInternalName})
+}
+
+func ruleInternalName(c *Ctx, r *Rep) {
+	p := c.Gojq
+	info := p.TypesInfo
+	byName := map[string]string{
+		"recurse": "jq's `..` is gen_call(\"recurse\") and binds to a user definition too (`def recurse: 1; [..]` is [1] in jq)",
+		"debug":   "jq defines debug/1 in jq as (msg | debug | empty), . — bound by name",
+		"format":  "reached only for a format name that jq rejects at compile time; the synthesised call exists to raise that error at run time",
+	}
+	n := 0
+	for _, fd := range c.Decls(p) {
+		if fd.Body == nil || c.PhysFile(fd.Pos()) == "parser.go" {
+			continue
+		}
+		if !strings.HasSuffix(c.Fset.Position(fd.Pos()).Filename, "compiler.go") {
+			continue
+		}
+		ast.Inspect(fd.Body, func(q ast.Node) bool {
+			cl, ok := q.(*ast.CompositeLit)
+			if !ok || !isNamed(info.TypeOf(cl), pathGojq, "Func") {
+				return true
+			}
+			for _, el := range cl.Elts {
+				kv, ok := el.(*ast.KeyValueExpr)
+				if !ok {
+					continue
+				}
+				if id, ok := kv.Key.(*ast.Ident); !ok || id.Name != "Name" {
+					continue
+				}
+				name, isConst := constString(info, kv.Value)
+				if !isConst {
+					continue // a name taken from the program text (a variable, an operator's function)
+				}
+				n++
+				key := fmt.Sprintf("name:%s:%s", declKey(fd), name)
+				switch {
+				case strings.HasPrefix(name, "_"):
+					r.OK(key, cl.Pos(), "%s synthesises a call of %s (reserved namespace)", declKey(fd), name)
+				case byName[name] != "":
+					r.OK(key, cl.Pos(), "%s synthesises a call of %s by name, as jq does: %s", declKey(fd), name, byName[name])
+				default:
+					r.Bad(key, cl.Pos(), "%s synthesises a call of the public name %s and compiles it through the ordinary lookup: a user definition captures it (`def %s: \"h\"; \"\\(1)\"` yields \"h\"; jq applies the conversion internally and yields \"1\")", declKey(fd), name, name)
+				}
+			}
+			return true
+		})
+	}
+	if n == 0 {
+		r.Undecided("census", token.NoPos, "no synthesised function name found in compiler.go")
+	}
+}
